@@ -93,7 +93,7 @@ func (s *SourceSplitter) Start(ckpt *snapshotpb.SourceCheckpoint) error {
 	}
 
 	// Include newly discovered shards for assignment
-	err := s.discoverShards(ctx, s.splitTracker.LastAssignedSplitID)
+	err := s.discoverShards(ctx, s.splitTracker.LastAssigned())
 	if err != nil {
 		return fmt.Errorf("kinesis.SourceSplitter failed to discover shards: %w", err)
 	}
@@ -117,7 +117,7 @@ func (s *SourceSplitter) processShardAssignment(ctx context.Context) {
 			return
 		case <-s.shardDiscoveryTicker.C:
 			// periodically discover shards and assign them to source runners
-			err := s.discoverShards(s.ctx, s.splitTracker.LastAssignedSplitID)
+			err := s.discoverShards(s.ctx, s.splitTracker.LastAssigned())
 			if err != nil {
 				s.errChan <- fmt.Errorf("kinesis.SourceSplitter failed to discover shards: %w", err)
 				return
@@ -155,7 +155,7 @@ func (s *SourceSplitter) Checkpoint() []byte {
 	// shards waiting for their parents have IDs before the last assigned ID and
 	// would never be discovered again after a restore. Restored shards are loaded
 	// as unassigned either way.
-	splits := s.splitTracker.KnownSplits()
+	splits, lastAssigned := s.splitTracker.Snapshot()
 	pbShards := make([]*kinesispb.SourceSplitterShard, len(splits))
 	for i, shard := range splits {
 		pbShards[i] = shard.toProto()
@@ -163,7 +163,7 @@ func (s *SourceSplitter) Checkpoint() []byte {
 
 	bs, err := proto.Marshal(&kinesispb.SplitterState{
 		AssignedShards:      pbShards,
-		LastAssignedShardId: s.splitTracker.LastAssignedSplitID,
+		LastAssignedShardId: lastAssigned,
 	})
 	if err != nil {
 		panic(err)
